@@ -18,7 +18,7 @@
                    (proved for render_default: C02/RenderProofs.v render_default_ok). *)
 From Coq Require Import NArith ZArith List Bool.
 From F8 Require Import Codec.Bytes Codec.Meta Codec.Extract Codec.Decode Codec.Encode Codec.Render
-                       Codec.Example C02.Spec_C02 C02.WfC02 C02.AuxProofs C02.EncodeProofs.
+                       Codec.Example C02.Spec_C02 C02.WfC02 C02.AuxProofs C02.EncodeProofs C02.InsertProofs.
 Import ListNotations.
 Local Open Scope N_scope.
 
@@ -31,6 +31,15 @@ Theorem c02_wellformed : forall c m,
   exists b m', msg_encode c m = Ok (b, m') /\ wire_ok c b = true.
 Proof. exact c02_wellformed_lemma. Qed.
 Print Assumptions c02_wellformed.
+
+(* "Regardless of insertion order", at the level of the API: for EVERY sequence of add_field calls
+   (any fields, any order, repeats included) on a freshly created part or group element, the
+   resulting _pos is sorted by key and every entry is filed under getPos of its field's trait --
+   so encode, which walks _pos, emits the fields in schema position order. *)
+Theorem c02_insertion_order : forall l g d m',
+  add_all (create_group g d) l = Ok m' -> pos_inv m'.
+Proof. exact insertion_order_lemma. Qed.
+Print Assumptions c02_insertion_order.
 
 (* Finding F05: Message::encode clears the suppress bits of BeginString, BodyLength and
    CheckSum and never restores them, so encoding the same (well-formed, fresh) object a second
